@@ -179,6 +179,20 @@ func c09FieldGuarded(t testing.TB, field string) bool {
 	return false
 }
 
+// c09AltSvcGuarded: do the regenerated facts show the Alt-Svc bookkeeping guarded? While they
+// do not (the two known findings), scenarios that make those unguarded accesses truly
+// concurrent are withheld from the behavioural lanes: a -race failure cannot carry a finding
+// class, the facts lane classes them. VERIF_C09_FORCE_KNOWN_RACY=1 overrides the gate (used to
+// demonstrate the finding by hand; never set by bin/check).
+func c09ForceKnownRacy() bool { return os.Getenv("VERIF_C09_FORCE_KNOWN_RACY") == "1" }
+
+func c09AltSvcGuarded(t testing.TB) bool {
+	if c09ForceKnownRacy() {
+		return true
+	}
+	return c09FieldGuarded(t, "Transport.pendingAltSvcs") && c09FieldGuarded(t, "AltSvcJar.entries")
+}
+
 // TestVerif_C09_locksetfacts: the lock-set table regenerated from the tree under test, field
 // by field, judged by the Lean `verdict` function and by the independent Go reading above.
 // The property oracle is "guarded"; the two confirmed unguarded sites are classed.
